@@ -77,7 +77,7 @@ def conc_job(jid, fam, front, progs, explore, draw=NEVER, prefill=(), mkdirs_ext
     if solo:
         st["solo"] = solo
     stages.append(st)
-    cfg = {"roots": roots, "front": name}
+    cfg = {"roots": roots, "front": name, "cap": (cache.get("cap") if name in ("plain", "sharded") else cache.get("writer", {}).get("cap", 1000000))}
     if name.startswith("stack"):
         cfg["autosync"] = True
     if cfg_extra:
@@ -137,11 +137,12 @@ BASE_ASSUME = [
 
 
 def merge_stats(stats):
-    tot = dict(runs=0, events=0, states=0, violations=0, fsmodel_mismatches=0, samples=[])
+    tot = dict(runs=0, events=0, states=0, violations=0, fsmodel_mismatches=0, samples=[], conf_ops=0, drifts=[])
     for s in stats:
-        for k in ("runs", "events", "states", "violations", "fsmodel_mismatches"):
-            tot[k] += s[k]
+        for k in ("runs", "events", "states", "violations", "fsmodel_mismatches", "conf_ops"):
+            tot[k] += s.get(k, 0)
         tot["samples"] += s["samples"][:1]
+        tot["drifts"] += s.get("drifts", [])
     return tot
 
 
@@ -153,6 +154,9 @@ def coverage_mc(tot, design, rule, extra=None):
                rule=rule,
                trace_events_validated=tot["events"],
                fsmodel_mismatches=tot["fsmodel_mismatches"],
+               model_conformant=(len(tot.get("drifts", [])) == 0),
+               ops_conforming_to_Kismet_tla=tot.get("conf_ops", 0),
+               drift_first_event=(tot.get("drifts") or [None])[0],
                design_level=[dict(cfg=d["cfg"], states=d["states"], transitions=d["transitions"], ok=d["ok"],
                                   never_taken=d.get("never_taken", []), wall_s=round(d.get("wall", 0), 1)) for d in design])
     if extra:
@@ -199,8 +203,8 @@ def check_C01(work):
         progs = ([S("k", chunks=2)], [P("k")], [G("k"), G("k")])
         jobs.append(conc_job("C01-%s-3p" % fr[0], "%s:3p" % fr[0], fr, progs, rnd(Q(60, 1500), seed() + 99)))
     mons = ["DirValid", "HandleContentOK", "Immutable"]
-    st = trace_check(work, out, jobs, mons, tag="c01")
-    design = []
+    st = trace_check(work, out, jobs, mons, tag="c01", conform=True)
+    design = design_runs(work, out, Q(["MCplain2q"], ["MCplain2q", "MCplain2"]))
     cov = coverage_mc(st, design,
                       "schedules of 2-3 participants explored by preemption-bounded DFS / seeded random at system-call granularity; "
                       "every snapshot of every step and every returned handle judged by DirValid/HandleContentOK/Immutable",
@@ -243,7 +247,7 @@ def check_C05(work):
                                      rnd(Q(1, 6), seed() + at), draw=ALWAYS, prefill=(("k3", "old3"),),
                                      adv=[{"at": at, "path": vpath}]))
     mons = ["NoErr", "DirValid"]
-    st = trace_check(work, out, jobs, mons, tag="c05")
+    st = trace_check(work, out, jobs, mons, tag="c05", conform=True)
     design = []
     cov = coverage_mc(st, design,
                       "capacity-1 caches (every write maintains), missing directories, adversarial deletions of published files at each scheduler step; "
@@ -252,3 +256,5 @@ def check_C05(work):
 
 
 CHECKS = {"C01": check_C01, "C05": check_C05}
+
+NOT_APPLICABLE = {}
